@@ -1,13 +1,13 @@
 """C06 — slide_in inserts without overwriting: later content shifts by the inserted length."""
 from props.m1common import *  # noqa: F401,F403
-from props.m1common import g, sp, sx, rng_for, is_err, compare_result, shrink_tree
+from props.m1common import hist_compare, hist_oracle, hist_times, g, sp, sx, rng_for, is_err, compare_result, shrink_tree
 from props import C05 as _c5
 
 PID = "C06"
 RUNNER = "impl_m1.py"
 VM_CROSSCHECK = True
 N = {"quick": 2000, "thorough": 80000}
-LEVEL_RULE = ("receivers and inserted events as C05 (sequences with nested sequences / simultaneities, simultaneities of "
+LEVEL_RULE = ("(10 % of the sequence cases are histories of 2-3 further insertions into the same object, every step judged like a single call on the state left behind) receivers and inserted events as C05 (sequences with nested sequences / simultaneities, simultaneities of "
               "containers with unequal voices; inserted leaf / sequence / simultaneity of length 0 .. 6 units); start drawn from child "
               "boundaries +-1 tick, leaf interiors, 0 and the duration; plus a malformed stream (about 14 %: negative start, start "
               "beyond the duration, simultaneities with a leaf voice) and a shared-reference stream (15 %: one leaf object sits at several positions of the receiver). non-trivial = the call succeeds and start lies strictly inside a "
@@ -18,7 +18,7 @@ OP = "slide_in"
 ERR_LEAF = "ImpossibleToSlideInError"
 
 
-def gen(seed, index):
+def gen1(seed, index):
     case = _c5.gen_case(PID, OP, seed, index)
     rng = rng_for(PID + "-share", seed, index)
     if rng.random() < 0.15:
@@ -29,7 +29,27 @@ def gen(seed, index):
     return case
 
 
+def gen(seed, index):
+    case = gen1(seed, index)
+    rng = rng_for(PID + "-hist", seed, index)
+    if rng.random() < 0.1 and case[1][0] == "S" and case[0] == "op":
+        # history stream: 2-3 further events put into the same sequence object (each with fresh labels)
+        unit = max(1, g.dur(case[1]) // 8)
+        d = g.dur(case[1])
+        ops = []
+        for k in range(rng.randint(2, 3)):
+            n = rng.choice([0, 1, 1, 2, 3]) * unit
+            new = ["L", n, 5000 + k] if rng.random() < 0.7 else ["S", 0, 0, ["L", n, 5000 + k], ["L", unit, 5100 + k]]
+            start = hist_times(rng, d, max(1, unit // 2))[0]
+            ops.append([OP, min(start, d), new])
+            d = d + g.dur(new)
+        return ["hist", case[1]] + ops
+    return case
+
+
 def compare(case, mo, io):
+    if case[0] == "hist":
+        return hist_compare(case, mo, io)
     return compare_result(mo, io)
 
 
@@ -90,10 +110,14 @@ def check_seq(t, r, start, new):
 
 
 def oracle(case, io, mo):
+    if case[0] == "hist":
+        return hist_oracle(oracle, case, io)
     return _c5.oracle_for(case, io, ERR_LEAF, check_seq)
 
 
 def nontrivial(case, io):
+    if case[0] == "hist":
+        return io is not None and len(io) >= 3 and not any(is_err(x) for x in io[1:])
     if io is None or is_err(io):
         return False
     t = case[1]
@@ -111,6 +135,9 @@ def stats(results):
     for r in results:
         io = r.get("io")
         case = r["case"]
+        if case[0] == "hist":
+            c["history:steps=%d" % (len(case) - 2)] += 1
+            continue
         c["ok" if io and io[0] == "ok" else "err:" + (io[1] if io and len(io) > 1 else "?")] += 1
         c["root:" + case[1][0]] += 1
         c["new:" + case[2][2][0]] += 1
